@@ -84,6 +84,7 @@ static void dump_log() {
         } }
 }
 static void finish(const char* res) { dump_log(); printf("%s\n", res); fflush(stdout); _exit(0); }
+static void on_alarm(int) { dump_log(); printf("stalled hard limit: the program did not finish within 120 s of real time\nresult hung\n"); fflush(stdout); _exit(0); }
 static void on_segv(int sig) { dump_log(); printf("result crashed signal=%d\n", sig); fflush(stdout); _exit(0); }
 
 // ---------------------------------------------------------------- lock scenario
@@ -339,7 +340,7 @@ static void cond_consumer(int c) {
 }
 
 static int run_program(const std::vector<std::string>& lines) {
-    signal(SIGSEGV, on_segv); signal(SIGABRT, on_segv);
+    signal(SIGSEGV, on_segv); signal(SIGABRT, on_segv); signal(SIGALRM, on_alarm); alarm(120);
     set_log_output(log_output_null);
     logbuf = new Rec[MAXLOG];
     std::istringstream is(lines.empty() ? "" : lines[0]); std::string kind; is >> kind;
